@@ -1,7 +1,358 @@
 package rules
 
 import (
+	"fmt"
+	"go/types"
+	"strings"
+
+	"golang.org/x/tools/go/ssa"
+
 	"verif/internal/ana"
 )
 
-func c08Bounds(p *ana.Prog, r *ana.Result, ts *ana.TaintState) {}
+// minLenCallees: library functions with a length precondition on one argument
+// (they index it unconditionally and panic otherwise).
+var minLenCallees = map[string][2]int{ // callee -> {arg index (after receiver for methods), min length}
+	"(encoding/binary.bigEndian).Uint16":       {1, 2},
+	"(encoding/binary.bigEndian).Uint32":       {1, 4},
+	"(encoding/binary.bigEndian).Uint64":       {1, 8},
+	"(encoding/binary.bigEndian).PutUint16":    {1, 2},
+	"(encoding/binary.bigEndian).PutUint32":    {1, 4},
+	"(encoding/binary.bigEndian).PutUint64":    {1, 8},
+	"(encoding/binary.littleEndian).Uint16":    {1, 2},
+	"(encoding/binary.littleEndian).Uint32":    {1, 4},
+	"(encoding/binary.littleEndian).Uint64":    {1, 8},
+	"(encoding/binary.littleEndian).PutUint16": {1, 2},
+	"(encoding/binary.littleEndian).PutUint32": {1, 4},
+	"(encoding/binary.littleEndian).PutUint64": {1, 8},
+}
+
+type boundObl struct {
+	fn    *ssa.Function
+	in    ssa.Instruction
+	desc  string
+	goals []ana.ILin // each must be >= 0
+	why   string
+}
+
+// exprDesc renders an index/slice expression without positions.
+func exprDesc(in ssa.Instruction) string {
+	switch x := in.(type) {
+	case *ssa.IndexAddr:
+		return ana.ValueString(x.X) + "[" + ana.ValueString(x.Index) + "]"
+	case *ssa.Index:
+		return ana.ValueString(x.X) + "[" + ana.ValueString(x.Index) + "]"
+	case *ssa.Slice:
+		lo, hi := "", ""
+		if x.Low != nil {
+			lo = ana.ValueString(x.Low)
+		}
+		if x.High != nil {
+			hi = ana.ValueString(x.High)
+		}
+		return ana.ValueString(x.X) + "[" + lo + ":" + hi + "]"
+	case *ssa.Call:
+		return ana.Short(ana.CalleeName(&x.Call)) + "(" + ana.ValueString(x.Call.Args[len(x.Call.Args)-1]) + ")"
+	}
+	return in.String()
+}
+
+func isSliceType(t types.Type) bool {
+	_, ok := t.Underlying().(*types.Slice)
+	return ok
+}
+
+func c08Bounds(p *ana.Prog, r *ana.Result, ts *ana.TaintState) {
+	residual, err := ana.CompilerResidual(p.Dir)
+	if err != nil {
+		r.Broken("C08.bounds: %v", err)
+		return
+	}
+	r.Trust("the Go compiler's prove/bounds-check-elimination pass (go build -gcflags=-d=ssa/check_bce/debug=1, compile only): an index or slice operation without a residual check at its position cannot panic")
+	nObl, nCompiler, nProver, nLifted := 0, 0, 0, 0
+	posKey := func(in ssa.Instruction) string {
+		ps := p.Fset.Position(in.Pos())
+		f := strings.TrimPrefix(ps.Filename, p.Dir+"/")
+		return fmt.Sprintf("%s:%d:%d", f, ps.Line, ps.Column)
+	}
+	provers := map[*ssa.Function]*ana.Prover{}
+	proverOf := func(f *ssa.Function) *ana.Prover {
+		if provers[f] == nil {
+			pr := ana.NewProver(f)
+			pr.PhiLower = func(ph *ssa.Phi) (int64, bool) { return phiLowerBound(f, ph) }
+			provers[f] = pr
+		}
+		return provers[f]
+	}
+	// obligations
+	var obls []boundObl
+	for _, f := range ts.Reachable() {
+		pr := proverOf(f)
+		ana.Instrs(f, func(in ssa.Instruction) {
+			switch x := in.(type) {
+			case *ssa.IndexAddr, *ssa.Index:
+				var base, idx ssa.Value
+				if ia, ok := x.(*ssa.IndexAddr); ok {
+					base, idx = ia.X, ia.Index
+				} else {
+					ix := x.(*ssa.Index)
+					base, idx = ix.X, ix.Index
+				}
+				risk := ts.Of(idx) != 0 || (isSliceType(base.Type()) && ts.Of(base)&ana.TL != 0)
+				if _, isStr := base.Type().Underlying().(*types.Basic); isStr && ts.Of(base) != 0 {
+					risk = true
+				}
+				if !risk {
+					return
+				}
+				i, ok1 := pr.Int(idx, 0)
+				l, ok2 := pr.Len(base, 0)
+				if !ok1 || !ok2 {
+					obls = append(obls, boundObl{fn: f, in: in, desc: exprDesc(in), why: "index expression outside the linear domain"})
+					return
+				}
+				g1 := l.Add(i, -1)
+				g1.C -= 1
+				obls = append(obls, boundObl{fn: f, in: in, desc: exprDesc(in), goals: []ana.ILin{i, g1}})
+			case *ssa.Slice:
+				base := x.X
+				risk := (x.Low != nil && ts.Of(x.Low) != 0) || (x.High != nil && ts.Of(x.High) != 0) || (isSliceType(base.Type()) && ts.Of(base)&ana.TL != 0 && (x.Low != nil || x.High != nil))
+				if _, isStr := base.Type().Underlying().(*types.Basic); isStr && ts.Of(base) != 0 && (x.Low != nil || x.High != nil) {
+					risk = true
+				}
+				if !risk {
+					return
+				}
+				var goals []ana.ILin
+				ok := true
+				var hi ana.ILin
+				if x.High != nil {
+					h, okh := pr.Int(x.High, 0)
+					c, okc := pr.Cap(base, 0)
+					if _, isStr := base.Type().Underlying().(*types.Basic); isStr {
+						c, okc = pr.Len(base, 0)
+					}
+					ok = ok && okh && okc
+					if ok {
+						goals = append(goals, c.Add(h, -1)) // cap - hi >= 0
+						hi = h
+					}
+				} else {
+					l, okl := pr.Len(base, 0)
+					ok = ok && okl
+					hi = l
+				}
+				if x.Low != nil && ok {
+					lo, okl := pr.Int(x.Low, 0)
+					ok = ok && okl
+					if ok {
+						goals = append(goals, lo, hi.Add(lo, -1)) // lo >= 0, hi - lo >= 0
+					}
+				} else if x.High != nil && ok {
+					goals = append(goals, hi) // hi >= 0
+				}
+				if !ok {
+					obls = append(obls, boundObl{fn: f, in: in, desc: exprDesc(in), why: "slice bounds outside the linear domain"})
+					return
+				}
+				obls = append(obls, boundObl{fn: f, in: in, desc: exprDesc(in), goals: goals})
+			case *ssa.Call:
+				name := ana.CalleeName(&x.Call)
+				if spec, ok := minLenCallees[name]; ok {
+					arg := x.Call.Args[spec[0]]
+					if ts.Of(arg)&ana.TL == 0 {
+						return
+					}
+					l, okl := pr.Len(arg, 0)
+					if !okl {
+						obls = append(obls, boundObl{fn: f, in: in, desc: exprDesc(in), why: "length outside the linear domain"})
+						return
+					}
+					g := l
+					g = g.Add(ana.ILin{Coef: map[string]int64{}, C: int64(spec[1])}, -1)
+					obls = append(obls, boundObl{fn: f, in: in, desc: exprDesc(in), goals: []ana.ILin{g}})
+				}
+				// AEAD nonce length precondition (miscreant panics on len(nonce) != 16)
+				if name == fnOpen || name == fnSeal {
+					nonce := x.Call.Args[1]
+					if ts.Of(nonce)&ana.TL == 0 {
+						return
+					}
+					l, okl := pr.Len(nonce, 0)
+					if !okl {
+						obls = append(obls, boundObl{fn: f, in: in, desc: "nonce-length:" + exprDesc(in), why: "nonce length outside the linear domain"})
+						return
+					}
+					g1 := l.Add(ana.ILin{Coef: map[string]int64{}, C: 16}, -1)
+					g2 := ana.ILin{Coef: map[string]int64{}, C: 16}
+					g2 = g2.Add(l, -1)
+					obls = append(obls, boundObl{fn: f, in: in, desc: "nonce-length==16:" + ana.ValueString(nonce), goals: []ana.ILin{g1, g2}, why: "miscreant's AEAD panics ('incorrect nonce length') unless len(nonce) == 16"})
+				}
+			}
+		})
+	}
+	nObl = len(obls)
+	for _, o := range obls {
+		fname := ana.FuncName(o.fn)
+		key := "in-range:" + o.desc
+		isPre := strings.HasPrefix(o.desc, "nonce-length")
+		if !isPre {
+			if _, resid := residual[posKey(o.in)]; !resid {
+				nCompiler++
+				r.Ok("C08.bounds", fname, key, posOf(p, o.in), "compiler-proved: no residual bounds check at this position")
+				continue
+			}
+		}
+		if o.goals == nil {
+			r.Violate("C08.bounds", fname, key, posOf(p, o.in), "index/slice operation on network-sized data cannot be analysed ("+o.why+") and the compiler keeps a run-time bounds check: a peer-chosen length can make it panic")
+			continue
+		}
+		pr := proverOf(o.fn)
+		facts := pr.GuardFacts(o.in)
+		all := true
+		var failed ana.ILin
+		for _, g := range o.goals {
+			if !pr.Prove(g, facts) {
+				all = false
+				failed = g
+				break
+			}
+		}
+		if all {
+			nProver++
+			r.Ok("C08.bounds", fname, key, posOf(p, o.in), fmt.Sprintf("prover: %d goals follow from %d dominating guard/bounds facts", len(o.goals), len(facts)))
+			continue
+		}
+		// lift to callers when the failed goals only mention parameters
+		if ok, how := liftToCallers(p, ts, o, proverOf, 0); ok {
+			nLifted++
+			r.Ok("C08.bounds", fname, key, posOf(p, o.in), "prover: requirement on the parameters holds at every call site ("+how+")")
+			continue
+		}
+		extra := ""
+		if o.why != "" {
+			extra = " - " + o.why
+		}
+		r.Violate("C08.bounds", fname, key, posOf(p, o.in), fmt.Sprintf("no guard establishes %s >= 0 for this operation on data whose length/index the peer chooses (the compiler keeps a run-time check): a short or oversized field panics with index/slice out of range%s", failed.String(), extra))
+	}
+	r.Table("bounds", map[string]int{"obligations": nObl, "compiler_proved": nCompiler, "prover_proved": nProver, "lifted_to_callers": nLifted, "compiler_residual_positions": len(residual)})
+	r.Floor("C08.bounds.obligations", nObl, 40)
+}
+
+// liftToCallers: re-prove the obligation's goals at every call site of o.fn
+// with parameters replaced by the arguments.
+func liftToCallers(p *ana.Prog, ts *ana.TaintState, o boundObl, proverOf func(*ssa.Function) *ana.Prover, depth int) (bool, string) {
+	if depth > 2 || o.goals == nil {
+		return false, ""
+	}
+	callee := o.fn
+	// goals are over atoms; map parameter atoms to call arguments by re-linearising at the call site.
+	// This is done by evaluating the same instruction shape: we need len(param) and param values.
+	sites := 0
+	for _, caller := range ts.Reachable() {
+		var calls []ssa.CallInstruction
+		ana.Instrs(caller, func(in ssa.Instruction) {
+			c, ok := in.(ssa.CallInstruction)
+			if !ok {
+				return
+			}
+			if c.Common().StaticCallee() == callee {
+				calls = append(calls, c)
+			}
+		})
+		for _, c := range calls {
+			sites++
+			pr := proverOf(caller)
+			facts := pr.GuardFacts(c.(ssa.Instruction))
+			for _, g := range o.goals {
+				sub, ok := substitute(g, callee, c, pr)
+				if !ok {
+					return false, ""
+				}
+				if !pr.Prove(sub, facts) {
+					// one more level: caller's own parameters
+					lo := boundObl{fn: caller, in: c.(ssa.Instruction), desc: o.desc, goals: []ana.ILin{sub}}
+					if ok2, _ := liftToCallers(p, ts, lo, proverOf, depth+1); !ok2 {
+						return false, ""
+					}
+				}
+			}
+		}
+	}
+	if sites == 0 {
+		return false, ""
+	}
+	return true, fmt.Sprintf("%d call sites", sites)
+}
+
+// substitute rewrites a goal over the callee's parameter atoms into the caller's terms.
+func substitute(g ana.ILin, callee *ssa.Function, c ssa.CallInstruction, pr *ana.Prover) (ana.ILin, bool) {
+	out := ana.ILin{Coef: map[string]int64{}, C: g.C}
+	args := c.Common().Args
+	for atom, coef := range g.Coef {
+		var term ana.ILin
+		found := false
+		for i, prm := range callee.Params {
+			if i >= len(args) {
+				break
+			}
+			switch atom {
+			case prm.Name():
+				t, ok := pr.Int(args[i], 0)
+				if !ok {
+					return out, false
+				}
+				term, found = t, true
+			case "len(" + prm.Name() + ")":
+				t, ok := pr.Len(args[i], 0)
+				if !ok {
+					return out, false
+				}
+				term, found = t, true
+			case "cap(" + prm.Name() + ")":
+				t, ok := pr.Cap(args[i], 0)
+				if !ok {
+					return out, false
+				}
+				term, found = t, true
+			}
+		}
+		if !found {
+			return out, false
+		}
+		out = out.Add(term, coef)
+	}
+	return out, true
+}
+
+// phiLowerBound: an inductive lower bound of a loop phi: the minimum of its
+// entry values when every back-edge value is the phi plus a non-negative amount.
+func phiLowerBound(fn *ssa.Function, ph *ssa.Phi) (int64, bool) {
+	var lo int64
+	have := false
+	for i, e := range ph.Edges {
+		pred := ph.Block().Preds[i]
+		if k, ok := ana.ConstInt(e); ok {
+			if !have || k < lo {
+				lo, have = k, true
+			}
+			continue
+		}
+		if ph.Block().Dominates(pred) {
+			inc, ok := minIncrement(fn, e, ph, pred, 0)
+			if !ok || inc < 0 {
+				return 0, false
+			}
+			continue
+		}
+		// non-constant entry value: use its own lower bound
+		l, ok := lowerBound(fn, e, pred, 0)
+		if !ok {
+			return 0, false
+		}
+		if !have || l < lo {
+			lo, have = l, true
+		}
+	}
+	return lo, have
+}
